@@ -67,13 +67,14 @@ void generate(sim::Rng &r, uint64_t seed, const std::string &tier, sim::Plan &p)
 
 static const char *DOMAINS[] = {"a.example.com", "www.test.org", "x.y", "host", "very.long.sub.domain.name.example.net", "q.example.com"};
 
-struct Sent { uint32_t serial; std::vector<uint8_t> bytes; int64_t t = 0; };
+struct Sent { uint32_t serial; std::vector<uint8_t> bytes; int64_t t = 0; long for_lookup = -1; };
 
 struct Lookup {
   uint16_t id = 0; bool made = false; bool cancelled = false; int64_t t_req = 0; int64_t t_cancel = 0;
   int callbacks = 0; int64_t t_cb = 0; int status = -1;
   std::vector<std::pair<uint32_t, std::string>> a, cname;   // (ttl, value)
   std::string domain;
+  long seqno = 0;                    // how many request() calls had been made before this one
 };
 
 struct World {
@@ -85,6 +86,7 @@ struct World {
   std::vector<Sent> sent;
   uint32_t serial = 1000;
   long queries_seen = 0;
+  long requests_made = 0;             // every DnsRequest::request() call of the run, the bulk of a wrap op included
 };
 World W;
 
@@ -246,7 +248,7 @@ void send_reply(const std::vector<uint8_t> &b) {
 // start a lookup; `retries` > 0: when it times out the same name is looked up again from inside the time-out callback
 void issue_lookup(int domain, int retries) {
   size_t idx = W.lk.size();
-  Lookup l; l.domain = DOMAINS[domain]; l.made = true; l.t_req = sim::now_ns();
+  Lookup l; l.domain = DOMAINS[domain]; l.made = true; l.t_req = sim::now_ns(); l.seqno = W.requests_made++;
   W.lk.push_back(l);
   uint16_t id = W.dns->request(DomainName(l.domain), [idx, domain, retries](const DnsRequest::Result &res) {
     {
@@ -300,6 +302,7 @@ void execute(const sim::Plan &plan) {
         W.loop->runInLoop([op] {
           long n = 65530 + std::max(0L, std::min(8L, op->arg(1)));
           long fired = 0;
+          W.requests_made += n;
           for (long k = 0; k < n; ++k) { auto id = W.dns->request(DomainName("w.example"), [&fired](const DnsRequest::Result &) { ++fired; }); W.dns->cancel(id); }
           if (fired) sim::violation("C15/callback-after-cancel", "a lookup that was cancelled at once had its callback invoked");
           sim::probe("id_wraps");
@@ -320,7 +323,7 @@ void execute(const sim::Plan &plan) {
         Lookup &L = W.lk[(size_t)(std::max(0L, op->arg(1)) % (long)W.lk.size())];
         uint32_t serial = ++W.serial;
         std::vector<uint8_t> b = craft(L, ((op->arg(2) % 24) + 24) % 24, std::max(0L, op->arg(3)), op->arg(4), serial);
-        W.sent.push_back(Sent{serial, b, sim::now_ns()});
+        W.sent.push_back(Sent{serial, b, sim::now_ns(), (long)(&L - &W.lk[0])});
         sim::trace("reply kind=%ld serial=%u len=%zu", op->arg(2), serial, b.size());
         sim::relevant();
         send_reply(b);
@@ -391,7 +394,13 @@ void execute(const sim::Plan &plan) {
       auto take = [&](int type, uint32_t ttl, const std::string &v) { for (size_t k = 0; k < pool.size(); ++k) if (pool[k].type == type && pool[k].ttl == ttl && pool[k].value == v) { pool.erase(pool.begin() + (long)k); return true; } return false; };
       for (auto &a : L.a) if (!take(1, a.first, a.second)) { all = false; why = sim::fmt("address %s (ttl %u) is not an A record encoded in the answering datagram (serial %u)", a.second.c_str(), a.first, s.serial); break; }
       if (all) for (auto &c : L.cname) if (!take(5, c.first, c.second)) { all = false; why = sim::fmt("name '%s' is not a CNAME record encoded in the answering datagram", c.second.substr(0, 60).c_str()); break; }
-      if (all) { ok = true; break; }
+      if (all) {
+        ok = true;
+        // a reply made for another lookup can only be taken for this one when the 16-bit id has come round again
+        if (s.for_lookup >= 0 && (size_t)s.for_lookup != i && std::labs(L.seqno - W.lk[(size_t)s.for_lookup].seqno) < 65535)
+          sim::violation("C15/reply-for-another-lookup-accepted", sim::fmt("lookup #%zu was completed with the reply sent for lookup #%ld, made %ld requests earlier: a transaction id was handed out again while replies to its previous use can still arrive", i, s.for_lookup, std::labs(L.seqno - W.lk[(size_t)s.for_lookup].seqno)));
+        break;
+      }
     }
     if (!ok) sim::violation("C15/reports-data-not-in-datagram", sim::fmt("lookup #%zu: %s", i, why.c_str()));
   }
